@@ -120,6 +120,17 @@ theorem balanced_append {u v : List Ev} (hu : Balanced u) (hv : Balanced v) : Ba
   rw [scan_append, scan_of_balanced hu]
   simp [scan_of_balanced hv]
 
+/-- per kind there are as many `*_end` as opening callbacks -/
+theorem balanced_counts {w : List Ev} (h : Balanced w) (k : Kind) :
+    w.countP (isOpn k) = w.countP (isCls k) := by
+  induction h with
+  | nil => rfl
+  | neutral e w hn _ ih =>
+    cases e <;> simp_all [isOpn, isCls, Ev.neutral, List.countP_cons]
+  | bracket k' i o u v _ _ ihu ihv =>
+    simp only [List.countP_cons, List.countP_append, ihu, ihv, isOpn, isCls]
+    by_cases hk : k' = k <;> simp [hk] <;> omega
+
 /-- the `*_end` callbacks that would close `st`, innermost first -/
 def closers (st : List (Kind × Nat)) : List Ev := st.map fun p => Ev.cls p.1 p.2 0
 
